@@ -114,15 +114,20 @@ Definition upper_ok_run (proto : Z) (b : list Z) : bool :=
   else true.
 
 (* script: pkt <id> <src> <dst> <proto> <ttl> <tos> <df> <mf> <off13> x<payload> *)
+Definition ipr_pkt (t : table) (id src dst proto ttl tos df mf off : Z) (pl : list Z) : table * list tok :=
+  let p := mkpkt id src dst proto ttl tos (negb (df =? 0)) (negb (mf =? 0)) off pl in
+  match process upper_ok_run t p with
+  | (t', NotFragmented) => (t', [TN 0])
+  | (t', Fragmented) => (t', [TN 1])
+  | (t', Reassembled ttl tos b) => (t', [TN 2; TN ttl; TN tos; TB b])
+  | (t', Malformed) => (t', [TN (-1)])
+  end.
+
+(* an optional last number: octets of the captured frame behind the IP total length (padding, trailer); IP(buffer) cuts the
+   payload at the total length, so they are not part of the packet the reassembler sees *)
 Definition ipr_step (t : table) (op : Z) (args : list tok) : table * list tok :=
   match op, args with
-  | 0, [TN id; TN src; TN dst; TN proto; TN ttl; TN tos; TN df; TN mf; TN off; TB pl] =>
-      let p := mkpkt id src dst proto ttl tos (negb (df =? 0)) (negb (mf =? 0)) off pl in
-      match process upper_ok_run t p with
-      | (t', NotFragmented) => (t', [TN 0])
-      | (t', Fragmented) => (t', [TN 1])
-      | (t', Reassembled ttl tos b) => (t', [TN 2; TN ttl; TN tos; TB b])
-      | (t', Malformed) => (t', [TN (-1)])
-      end
+  | 0, [TN id; TN src; TN dst; TN proto; TN ttl; TN tos; TN df; TN mf; TN off; TB pl] => ipr_pkt t id src dst proto ttl tos df mf off pl
+  | 0, [TN id; TN src; TN dst; TN proto; TN ttl; TN tos; TN df; TN mf; TN off; TB pl; TN _] => ipr_pkt t id src dst proto ttl tos df mf off pl
   | _, _ => (t, [TN (-3)])
   end.
